@@ -57,6 +57,17 @@ Definition consistent_pair (a b : aspec) : bool :=
 Definition consistent (l : list aspec) : bool :=
   forallb (fun a => forallb (consistent_pair a) l) l.
 
+(* no MapSpec of a later function computes an input of an earlier one (the functions are listed in a
+   topological order: a Pipeline is acyclic) *)
+Fixpoint topo_specs (specs : list mapspec) : bool :=
+  match specs with
+  | [] => true
+  | m :: t =>
+      forallb (fun a => negb (existsb (fun m' => negb (is_nil (ins m')) && mem_str (aname a) (map aname (outs m')))
+                                      (m :: t))) (ins m)
+      && topo_specs t
+  end.
+
 (* ---------- selecting by coordinate value ---------- *)
 (* `pos_of x l` (Model/MapSpecSpec.v) is the position of the first occurrence of x in l *)
 
